@@ -131,6 +131,10 @@ func main() {
 		}
 		return 0
 	}
+	if err := os.Chdir(work); err != nil {
+		fmt.Fprintln(os.Stderr, err)
+		os.Exit(2)
+	}
 	rep := report{FirstBad: -1}
 	seen := map[string]bool{}
 	order := make([]int, 0, nsched+3)
@@ -146,7 +150,9 @@ func main() {
 		if pos >= nsched && rep.FirstBad < 0 {
 			break // nothing differed: no need to re-check the canonical schedule
 		}
-		outDir := filepath.Join(work, fmt.Sprintf("out-%d", k))
+		// output paths are relative to the working directory, as a user writes
+		// them in a configuration file: the process must not move while it saves
+		outDir := fmt.Sprintf("out-%d", k)
 		os.RemoveAll(outDir)
 		os.MkdirAll(filepath.Join(outDir, "dart"), 0o755)
 		conf := Config{"_dart": Actions{{Output: filepath.Join(outDir, "dart")}}}
